@@ -39,6 +39,7 @@ def required(tier):
         "shape.left_assoc": 20,
         "shape.rule_level_inheritance": 30,
         "shape.strategy_marks": 20,
+        "shape.operators_as_groups": 30,
         "cover.create_table": 60,
     }
 
@@ -180,6 +181,26 @@ def ambiguous_grammar(rng, table):
     return header + ": " + " | ".join(alts) + ";"
 
 
+def grouped_grammar(rng, table):
+    """One rule definition per level, its meta-data at rule level, the operators of the level
+    written as a parenthesised group: E {left, 1}: E ("+" | "-") E;"""
+    levels = sorted(set(l for l, _ in table.values()))
+    pool = [0, 1, 2, 3, 5, 9, 10, 11, 12, 20, 50, 1000]
+    start = rng.randint(0, len(pool) - len(levels))
+    prio = dict(zip(levels, pool[start : start + len(levels)]))
+    lines = []
+    for l in levels:
+        ops = [o for o, (lv, _) in table.items() if lv == l]
+        assoc = table[ops[0]][1]
+        a = {"left": rng.choice(["left", "reduce"]), "right": rng.choice(["right", "shift"])}[assoc]
+        meta = [a, str(prio[l])]
+        rng.shuffle(meta)
+        lines.append("E {%s}: E (%s) E;" % (", ".join(meta), " | ".join('"%s"' % o for o in ops)))
+    lines.append('E: "(" E ")" | "n";')
+    rng.shuffle(lines)
+    return "\n".join(lines)
+
+
 def stratified_grammar(table, rng=None, decorate=False):
     """Unambiguous (LALR(1)) grammar for the same table: one level per priority."""
     levels = sorted(set(l for l, _ in table.values()))
@@ -238,7 +259,11 @@ def one_table(ctx):
     rng = ctx.rng
     table = make_table(rng)
     ops = list(table)
-    text = ambiguous_grammar(rng, table)
+    if rng.random() < 0.2:
+        text = grouped_grammar(rng, table)
+        ctx.count("shape.operators_as_groups")
+    else:
+        text = ambiguous_grammar(rng, table)
     if "nops" in text:
         ctx.count("shape.strategy_marks")
     case0 = {"grammar": text, "table": {k: list(v) for k, v in table.items()}}
